@@ -6,6 +6,8 @@ V = os.path.dirname(os.path.dirname(os.path.abspath(__file__)))
 TECH = "deterministic simulation with fault injection: real writer code run against a simulated kernel / target / clock / destination behind interposed libc symbols; seeded scenario search, oracle on each run, minimised replay file"
 
 CLAIMED = {
+ "C11": ("fault_enumeration", "3 C11", "All 32 subsets of the five fail points x {1,2,5,24} threads x crash context on/off (indices 0..255, enumerated), then natural failures of each best-effort step injected through the kernel seam singly and in pairs (stop EPERM / timeout, auxv missing / truncated, unreadable names, attach EPERM / ESRCH for some or all threads, cpuinfo open error / missing fields, each copied /proc or release file failing at the open that feeds the raw stream, AT_PHDR absent / unreadable, unreadable r_debug, fd directory unreadable). Oracle: dump Ok; structure sound (C01 oracle); soft-error stream present, JSON list, empty when nothing failed, the step's key present for every injected failure, one ReadThreadNameFailed per name the kernel could not deliver; every stream not touched by the failure equals the failure-free twin's stream (offset-independent digest).", "Mapping from injected failure to the expected JSON key and to the set of legitimately affected streams is part of the generator (tags expect:/affects:)."),
+ "C17": ("exploration", "3 C17", "Boundary grid first (8 source alignments x 22 lengths {1..17, 4095..4097, 65535, 65536} x positions {inside, ending at the end of, crossing the end of a readable run} x 4 strategies), then random (src, len) over an address space with readable runs, a PROT_NONE run and holes; the auto-probing reader with the earlier strategies failing by fault. Oracle: fully readable range => Ok(len) and bytes == simulated memory; otherwise Err or a prefix of the true bytes, never other data.", "Read-call semantics of the simulated kernel (measured on this sandbox's kernel: process_vm_readv honours protections and returns partial counts, /proc/pid/mem and PEEKDATA use FOLL_FORCE)."),
  "C04": ("exploration", "3 C04", "Seeded search over thread sets (1..64 threads, field-unique register values, sandbox and foreign-traced threads), thread exits placed by trigger at every phase (before/during enumeration, at the name read, between attaches, between attach and wait), stop behaviour (fail point, late, staggered) and busy threads stepped 1..7 micro-steps per writer call. Oracle: completeness, no duplicates, every context field equals the simulated kernel's register state while stopped, and the kernel-side single-instant invariant (no listed thread executed between its register read and the last remote memory read) plus the three-counter content check.", "ptrace / group-stop / signal model of the simulated kernel."),
  "C05": ("exploration", "3 C05", "Crash contexts with field-unique general, flag, segment and x87/SSE values and siginfo; blamed thread = main / other / exiting before attach / never existing / present but not attachable (foreign tracer, sandbox thread); with and without crash context. Decoder compares exception record and both contexts field by field.", "Strict decoder; dumps that fail as a whole (blamed thread without /proc entry) give no image to judge."),
  "C06": ("exploration", "3 C06", "Exhaustive sweep of all 512 word-aligned in-page stack-pointer offsets under three size-limit classes (indices 0..1535), then random: unaligned SPs, SP in the guard page / 2..255 pages below / beyond the guard distance, stack sizes 1..64 pages, 1..64 threads (list positions >= 20), crash-context thread at a late position. Oracle = stack-region model from the statement; bytes from SP upward compared with simulated memory.", "Byte equality asserted with sanitize off; exact-limit guard distance (256/257 pages) not generated."),
